@@ -74,6 +74,38 @@ def run(repo: Repo) -> Result:
 
 # =========================================================================== R1
 
+# classes whose construction / public methods are the vocabulary of the rules (they stay events of the execution)
+ANCHOR_CLASSES = {"Parser", "FileFilter", "Config", "ExternalImportFilter", "NetworkxGraph", "ImportConverter", "EvaluableArchitectureGraph", "ImporteeModuleCalculator", "NamedModule", "AbsoluteImport", "RelativeImport", "Import"}
+
+
+def _run_entry(repo: Repo, T, fi: FuncInfo) -> "tuple[SymX, Trace]":
+    """Symbolic execution of a public entry point that also follows the objects it builds: a class of the repository that is
+    instantiated on the way and is not itself vocabulary of the rules (a policy / options / pipeline object that took over what
+    helper functions did) has its constructor and its methods executed in place, so the calls made *inside* them are seen."""
+    from .c04_symx import _private_helper_class, default_policy
+
+    opened: set[str] = set()
+    sx = tr = None
+    for _round in range(4):
+        def policy(caller: FuncInfo, callee: FuncInfo, opened=frozenset(opened)) -> bool:
+            if default_policy(fi, caller, callee):
+                return True
+            return callee.cls is not None and callee.cls.fq in opened and not (callee.name.startswith("__") and callee.name.endswith("__"))
+
+        def enter_ctor(ci, opened=frozenset(opened)) -> bool:
+            usual = (not ci.bases or _private_helper_class(ci)) and ci is not fi.cls and not ci.is_dataclass and (ci.module is fi.module or ci.name.startswith("_"))
+            return usual or ci.fq in opened
+
+        sx = SymX(repo, T, policy=policy, enter_ctor=enter_ctor)
+        tr = sx.run(fi)
+        built = {e.func[1] for e in tr.events if e.kind == "call" and e.func[0] == "cls" and e.func[1] in repo.classes}
+        new = {fq for fq in built if fq not in opened and fq.rsplit(".", 1)[-1] not in ANCHOR_CLASSES and not any(b.endswith(("NamedTuple", "Enum")) for b in repo.classes[fq].bases)}
+        if not new:
+            break
+        opened |= new
+    assert sx is not None and tr is not None
+    return sx, tr
+
 
 def _bind_args(callee: FuncInfo, e: Event) -> dict[str, Term]:
     """Argument terms of a call event by parameter name of the callee (receiver parameter skipped)."""
@@ -236,8 +268,7 @@ def rule_r1(repo: Repo, res: Result) -> None:
         # root_path := dirname(root_module.__file__), module_path := dirname(module.__file__)
         _r1_same_api_calls(repo, res, T, ge, gm)
     # ---- the path entry point: every option reaches the consumer of its role
-    sx2 = SymX(repo, T)
-    tr2 = sx2.run(ge)
+    sx2, tr2 = _run_entry(repo, T, ge)
     tag = f"{ge.relpath}::{ge.qualname}"
     p = ge.param_names
     want_names = ["root_path", "module_path", "exclusions", "exclude_external_libraries", "level_limit", "regex_exclusions", "external_exclusions", "regex_external_exclusions"]
@@ -1811,8 +1842,7 @@ def rule_r5(repo: Repo, res: Result) -> None:
                 res.add("C04.R5", repo.key(f, stmt_of(c)) + f" [{norm(c, 50)}]", single, "strips a single character" if single else f"`{norm(c, 70)}` removes any run of the *characters* of its argument, not that suffix/prefix: path components spelled with those letters are eaten as well", where(f, c), kind="structural")
     # ---- the prefix handed to the converter by the path entry point
     ge = repo.func(ENTRY, "get_evaluable_architecture")
-    sx = SymX(repo, T)
-    tr = sx.run(ge)
+    sx, tr = _run_entry(repo, T, ge)
     tag = f"{ge.relpath}::{ge.qualname}"
     conv_cls = repo.cls(CONVERTER, "ImportConverter")
     convert = conv_cls.methods.get("convert")
